@@ -44,12 +44,16 @@ fn instance(cities: usize, which: u8) -> TspP {
         return TspP { n: cities, dist, instr: Instr::new() };
     }
     let gaps: Vec<f64> = match (cities, which) {
+        (2, _) => vec![1.5],
+        (6, 0) => vec![1.0, 2.0, 1.0, 3.0, 1.0],
+        (6, _) => vec![1e-3, 1.0, 1e3, 7.0, 0.5],
         (3, 0) => vec![1.0, 2.0],
         (3, _) => vec![1e-3, 1e3],
         (4, 0) => vec![1.0, 2.0, 4.0],
         (4, _) => vec![1e3, 1e-3, 1.0],
         (5, 0) => vec![1.0, 1.0, 1.0, 1.0],
-        (_, _) => vec![1.0, 1e3, 1e-3, 7.0],
+        (5, _) => vec![1.0, 1e3, 1e-3, 7.0],
+        (n, _) => (0..n - 1).map(|i| 1.0 + (i % 3) as f64).collect(),
     };
     TspP::line(&gaps[..cities - 1], Instr::new())
 }
@@ -242,6 +246,26 @@ fn spec_for(c: &AcoCase, iters: u32) -> Spec<TspP> {
 pub fn cases(thorough: bool) -> Vec<AcoCase> {
     let mut v = vec![];
     let cities: Vec<usize> = if thorough { vec![3, 4, 5] } else { vec![3, 4] };
+    // matrix sizes around the block sizes a vectorised scaling would use (4, 36, 100 entries), trails that
+    // are exactly zero (complete evaporation, zero default), on the template and on the bare components
+    for n in [2usize, 6] {
+        for (ants, alpha, beta, evap, dp) in [(2usize, 1.0, 1.0, 0.1, 1.0), (1, 1.0, 2.0, 0.5, 2.0)] {
+            if n == 6 && ants == 1 && !thorough {
+                continue;
+            }
+            v.push(AcoCase { cities: n, instance: 0, ants, alpha, beta, evap, bounds: None, default_pher: dp, via_template: ants == 2 });
+            v.push(AcoCase { cities: n, instance: 0, ants, alpha, beta, evap, bounds: Some((2.0, 0.5)), default_pher: dp, via_template: ants != 2 });
+        }
+    }
+    for n in [3usize, 4] {
+        for (ants, alpha, beta, evap, dp) in [(2usize, 1.0, 1.0, 1.0, 1.0), (1, 1.0, 1.0, 0.1, 0.0), (2, 2.0, 0.0, 1.0, 0.0)] {
+            v.push(AcoCase { cities: n, instance: 0, ants, alpha, beta, evap, bounds: None, default_pher: dp, via_template: ants == 2 });
+        }
+    }
+    if thorough {
+        v.push(AcoCase { cities: 10, instance: 0, ants: 2, alpha: 1.0, beta: 1.0, evap: 0.25, bounds: None, default_pher: 1.0, via_template: true });
+        v.push(AcoCase { cities: 6, instance: 1, ants: 2, alpha: 1.0, beta: 1.0, evap: 1.0, bounds: Some((2.0, 0.5)), default_pher: 0.0, via_template: true });
+    }
     // two tight clusters separated by an astronomically large distance
     for (ants, alpha, beta) in [(2usize, 1.0, 2.0), (1, 2.0, 5.0)] {
         v.push(AcoCase { cities: 4, instance: 2, ants, alpha, beta, evap: 0.1, bounds: None, default_pher: 1.0, via_template: true });
